@@ -10,7 +10,6 @@ import (
 	"encoding/json"
 	"fmt"
 	"io"
-	"os"
 	"path"
 	"path/filepath"
 	"sort"
@@ -21,7 +20,6 @@ import (
 
 	chart "helm.sh/helm/v4/pkg/chart/v2"
 	"helm.sh/helm/v4/pkg/chart/v2/loader"
-	"helm.sh/helm/v4/pkg/ignore"
 
 	"verif/harness/internal/chartx"
 	"verif/harness/internal/hx"
@@ -72,7 +70,8 @@ type c15Oracle struct {
 	jsonDatas  map[string]bool
 	tgzDatas   map[string]bool
 	semvers    map[string]bool
-	ign        []string // printed (path,isdir) -> bool entries
+	ign        []string // printed (pattern, name) pairs filepath.Match accepts
+	matchErr   []string // printed patterns filepath.Match rejects
 	ignSeen    map[string]bool
 
 	chains       []c15Chain // per chart level: the Chart.yaml / requirements.yaml contents in file order
@@ -227,41 +226,139 @@ func (o *c15Oracle) addFile(name string, data []byte) {
 	}
 }
 
-// addIgnore tabulates rules.Ignore for every file and ancestor directory of the tree, the
-// way LoadDir sets the rules up; returns true when .helmignore does not parse.
-func (o *c15Oracle) addIgnore(root string, tree []c15File) bool {
-	rules := ignore.Empty()
-	ifile := filepath.Join(root, ignore.HelmIgnore)
-	if _, err := os.Stat(ifile); err == nil {
-		r, err := ignore.ParseFile(ifile)
-		if err != nil {
+// ---- .helmignore, evaluated independently of pkg/ignore (that package is part of what is
+// checked): the documented rule syntax, with filepath.Match as the only borrowed piece.
+
+type c15Rule struct {
+	pat      string
+	negate   bool
+	mustDir  bool
+	rooted   bool
+	hasSlash bool
+}
+
+// c15ParseIgnore returns the rules of a .helmignore text (nil text = no file) followed by
+// the built-in rule for dot files in templates/; ok=false when a line is not a valid rule.
+func c15ParseIgnore(text []byte, present bool) (rules []c15Rule, badPatterns []string, ok bool) {
+	ok = true
+	var lines []string
+	if present {
+		lines = strings.Split(string(bytes.TrimPrefix(text, c15Bom)), "\n")
+		if n := len(lines); n > 0 && lines[n-1] == "" {
+			lines = lines[:n-1]
+		}
+	}
+	lines = append(lines, "templates/.?*")
+	for _, l := range lines {
+		r := strings.TrimSpace(l)
+		if r == "" || r[0] == '#' {
+			continue
+		}
+		if strings.Contains(r, "**") {
+			return nil, badPatterns, false
+		}
+		if _, err := filepath.Match(r, "abc"); err != nil {
+			badPatterns = append(badPatterns, r)
+			return nil, badPatterns, false
+		}
+		var ru c15Rule
+		if r[0] == '!' {
+			ru.negate, r = true, r[1:]
+		}
+		if strings.HasSuffix(r, "/") {
+			ru.mustDir, r = true, r[:len(r)-1]
+		}
+		if strings.HasPrefix(r, "/") {
+			ru.rooted, r = true, r[1:]
+		} else if strings.Contains(r, "/") {
+			ru.hasSlash = true
+		}
+		ru.pat = r
+		rules = append(rules, ru)
+	}
+	return rules, badPatterns, true
+}
+
+func (ru c15Rule) matches(n string) (string, string, bool) {
+	name := n
+	if !ru.rooted && !ru.hasSlash {
+		name = path.Base(n)
+	}
+	m, _ := filepath.Match(ru.pat, name)
+	return ru.pat, name, m
+}
+
+// c15RuleSaysIgnore: rules in order; a plain rule that matches excludes the path; a negated
+// rule excludes every path it does NOT match (and every non-directory when it is a
+// directory rule); a directory rule is skipped for files.
+func c15RuleSaysIgnore(rules []c15Rule, n string, isDir bool, seen func(p, name string)) bool {
+	for _, ru := range rules {
+		p, name, m := ru.matches(n)
+		if m {
+			seen(p, name)
+		}
+		if ru.negate {
+			if (ru.mustDir && !isDir) || !m {
+				return true
+			}
+			continue
+		}
+		if ru.mustDir && !isDir {
+			continue
+		}
+		if m {
 			return true
 		}
-		rules = r
 	}
-	rules.AddDefaults()
-	q := func(n string, isDir bool) bool {
-		fi, err := os.Lstat(filepath.Join(root, filepath.FromSlash(n)))
-		if err != nil {
-			return false
+	return false
+}
+
+// addIgnore evaluates the rules of the tree's .helmignore for every file and ancestor
+// directory (independently of pkg/ignore), records which files the walk must skip and the
+// filepath.Match facts the model needs; returns true when the rules file is invalid.
+func (o *c15Oracle) addIgnore(root string, tree []c15File) bool {
+	var text []byte
+	present := false
+	for _, f := range tree {
+		if f.Name == ".helmignore" {
+			text, present = f.Data, true
 		}
-		res := rules.Ignore(n, fi)
-		k := fmt.Sprintf("((%s, %s), %s)", c15S(n), hx.CoqBool(isDir), hx.CoqBool(res))
+	}
+	rules, bad, ok := c15ParseIgnore(text, present)
+	for _, b := range bad {
+		o.matchErr = append(o.matchErr, chartx.CoqStr(b))
+	}
+	if !ok {
+		return true
+	}
+	seen := func(p, name string) {
+		k := fmt.Sprintf("(%s, %s)", chartx.CoqStr(p), chartx.CoqStr(name))
 		if !o.ignSeen[k] {
 			o.ignSeen[k] = true
 			o.ign = append(o.ign, k)
 		}
-		return res
+	}
+	// every match fact the model may ask for, not only those on the evaluation path
+	for _, f := range tree {
+		parts := strings.Split(f.Name, "/")
+		for i := 1; i <= len(parts); i++ {
+			n := strings.Join(parts[:i], "/")
+			for _, ru := range rules {
+				if p, name, m := ru.matches(n); m {
+					seen(p, name)
+				}
+			}
+		}
 	}
 	for _, f := range tree {
 		parts := strings.Split(f.Name, "/")
 		ig := false
 		for i := 1; i < len(parts); i++ {
-			if q(strings.Join(parts[:i], "/"), true) {
+			if c15RuleSaysIgnore(rules, strings.Join(parts[:i], "/"), true, seen) {
 				ig = true
 			}
 		}
-		if q(f.Name, false) {
+		if c15RuleSaysIgnore(rules, f.Name, false, seen) {
 			ig = true
 		}
 		if ig {
@@ -445,7 +542,7 @@ func (o *c15Oracle) close() {
 		jsons = append(jsons, fmt.Sprintf("(%s, %s)", c15S(d), hx.CoqBool(json.Valid([]byte(d)))))
 	}
 	o.term = "(mkOr " + strings.Join([]string{hx.CoqList(keys), hx.CoqList(merges), hx.CoqList(encs), hx.CoqList(lockdec), hx.CoqList(lockenc), hx.CoqList(vals),
-		hx.CoqList(untar), hx.CoqList(jsons), hx.CoqList(sans), hx.CoqList(semv), hx.CoqList(rests), hx.CoqList(o.ign), hx.CoqList(depnames)}, "\n  ") + ")"
+		hx.CoqList(untar), hx.CoqList(jsons), hx.CoqList(sans), hx.CoqList(semv), hx.CoqList(rests), hx.CoqList(o.ign), hx.CoqList(o.matchErr), hx.CoqList(depnames)}, "\n  ") + ")"
 }
 
 func c15DefaultAPI(m *chart.Metadata) *chart.Metadata {
@@ -591,7 +688,7 @@ func (p *c15) coqCase(c c15Case, obs c15Obs) string {
 			saved = "(Some " + c15CoqEnts(obs.Saved) + ")"
 		}
 		tree := "None"
-		if obs.SaveDirErr == "" && !obs.IgnoreErr { // an unparsable .helmignore: LoadDir fails before the model's part starts
+		if obs.SaveDirErr == "" {
 			tree = "(Some " + c15CoqFiles(obs.Tree) + ")"
 		}
 		spec := c15CoqChart(c15Project(c15Build(c.Chart)))
